@@ -76,6 +76,10 @@ THEOREMS = [
     "Verif.C02.seek_regular_second_line",
     "Verif.C02.first_line_repair",
     "Verif.C02.fresh_after_repair",
+    "Verif.C02.pixel_is_assigned_samples",
+    "Verif.C02.kymo_entry_is_assigned",
+    "Verif.C02.scan_entry_is_assigned",
+    "Verif.C02.scan_shape_matches_image",
 ]
 RULE = (
     "corpus (documented interleaved-discard wave, non-constant samples per pixel, truncated colours) + exhaustive small "
@@ -457,7 +461,8 @@ def impl(case):
     if case["op"] == "seq":
         return impl_seq(case)
     if case["op"] == "sum":
-        return [direct_sum(case), public_sum(case)]
+        d, pb = direct_sum(case), public_sum(case)
+        return [d, pb, d if d != UNOBSERVED else pb]
     if case["op"] == "regrepair":
         return impl_regrepair(case)
     e = explicit(case)
@@ -506,7 +511,8 @@ def ops(case):
         _, _, iwc, chans, _ = window_parts(case)
         return [f"c02.kymo {case['P']} {enc_list(iwc)} 0 {enc_chan(chans[c])}" for c in COLORS]
     if case["op"] == "sum":
-        return [f"c02.sum {enc_list(case['data'])} {enc_list(case['iw'])} {enc_list(case['shape'])}"] * 2  # direct, public
+        a = f"{enc_list(case['data'])} {enc_list(case['iw'])} {enc_list(case['shape'])}"
+        return [f"c02.sum {a}", f"c02.sum {a}", f"c02.assigned {a}"]  # direct, public, direct|public vs the index formula
     if case["op"] == "regrepair":
         a = f"{case['lead']} {case['k']} {case['d']} {case['P']} {case['n']}"
         out = [f"c02.regwave {a}"]
